@@ -178,6 +178,132 @@ fn build(r: &mut Rng, p: &Pools, sk: &[Vec<usize>], addr0: u64) -> Function {
     Function::new(addr0, cfg)
 }
 
+
+// ---------------------------------------------------------------- search aid: a small interpreter
+// (NOT part of the check: the kernel runs Exec/Sem and SSA/SemSSA; this only makes replays readable
+// by naming the initial state and the step at which the two forms part)
+type Key = (String, Option<usize>);
+#[derive(Clone)]
+struct St {
+    env: BTreeMap<Key, il::Constant>,
+    mem: BTreeMap<u64, u8>,
+    big: bool,
+}
+fn ev(e: &Expression, st: &St) -> Result<il::Constant, String> {
+    let mut e2 = e.clone();
+    for s in e.scalars() {
+        match st.env.get(&(s.name().to_string(), s.ssa())) {
+            Some(c) if c.bits() == s.bits() => {
+                e2 = e2.replace_scalar(s, &Expression::constant(c.clone())).map_err(|_| "sort".to_string())?
+            }
+            Some(_) => return Err("sort".into()),
+            None => return Err(format!("undefined {}", s)),
+        }
+    }
+    falcon::executor::eval(&e2).map_err(|e| err_kind(&e).to_string())
+}
+fn phis(b: &il::Block, from: Option<usize>, st: &mut St) -> Result<(), String> {
+    let mut ws = vec![];
+    for p in b.phi_nodes() {
+        let src = match from { Some(h) => p.incoming_scalar(h), None => p.entry_scalar() };
+        let src = src.ok_or_else(|| "phi without slot".to_string())?;
+        ws.push(((p.out().name().to_string(), p.out().ssa()), st.env.get(&(src.name().to_string(), src.ssa())).cloned()));
+    }
+    for (k, v) in ws.into_iter().rev() {
+        match v { Some(c) => { st.env.insert(k, c); } None => { st.env.remove(&k); } }
+    }
+    Ok(())
+}
+/// trace of observable events with SSA versions stripped
+fn run(f: &Function, st0: &St, fuel: usize) -> Vec<String> {
+    let g = f.control_flow_graph();
+    let mut st = st0.clone();
+    let mut tr = vec![];
+    let mut bi = match g.entry() { Some(e) => e, None => return vec!["no entry".into()] };
+    if let Ok(b) = g.block(bi) {
+        if let Err(e) = phis(b, None, &mut st) { tr.push(format!("stuck({})", e)); return tr; }
+    }
+    let mut steps = 0;
+    loop {
+        let b = match g.block(bi) { Ok(b) => b, Err(_) => { tr.push("stuck(no block)".into()); return tr; } };
+        for i in b.instructions() {
+            steps += 1;
+            if steps > fuel { return tr; }
+            let r: Result<Option<String>, String> = (|| match i.operation() {
+                il::Operation::Assign { dst, src } => {
+                    let v = ev(src, &st)?;
+                    st.env.insert((dst.name().to_string(), dst.ssa()), v.clone());
+                    Ok(Some(format!("{}={}", dst.name(), v)))
+                }
+                il::Operation::Store { index, src } => {
+                    let v = ev(src, &st)?;
+                    let a = ev(index, &st)?.value_u64().ok_or("address bits")?;
+                    if v.bits() == 0 || v.bits() % 8 != 0 { return Err("sort".into()); }
+                    let n = v.bits() / 8;
+                    let bytes = v.value().to_bytes_le();
+                    for k in 0..n {
+                        let byte = *bytes.get(k).unwrap_or(&0);
+                        let off = if st.big { n - 1 - k } else { k };
+                        st.mem.insert(a.wrapping_add(off as u64), byte);
+                    }
+                    Ok(Some(format!("[{:#x}]={}", a, v)))
+                }
+                il::Operation::Load { dst, index } => {
+                    let a = ev(index, &st)?.value_u64().ok_or("address bits")?;
+                    if dst.bits() == 0 || dst.bits() % 8 != 0 { return Err("sort".into()); }
+                    let n = dst.bits() / 8;
+                    let mut le = vec![0u8; n];
+                    for k in 0..n {
+                        let off = if st.big { n - 1 - k } else { k };
+                        le[k] = *st.mem.get(&a.wrapping_add(off as u64)).ok_or("unmapped")?;
+                    }
+                    let v = il::Constant::new_big(num_bigint::BigUint::from_bytes_le(&le), dst.bits());
+                    st.env.insert((dst.name().to_string(), dst.ssa()), v.clone());
+                    Ok(Some(format!("{}=[{:#x}]={}", dst.name(), a, v)))
+                }
+                il::Operation::Branch { target } => Err(format!("goto {}", ev(target, &st)?)),
+                il::Operation::Intrinsic { .. } => Err("intrinsic".into()),
+                il::Operation::Nop { .. } => Ok(None),
+            })();
+            match r {
+                Ok(Some(e)) => tr.push(format!("B{}.{} {}", bi, i.index(), e)),
+                Ok(None) => {}
+                Err(e) => { tr.push(format!("B{}.{} stuck({})", bi, i.index(), e)); return tr; }
+            }
+        }
+        steps += 1;
+        if steps > fuel { return tr; }
+        let outs = g.edges_out(bi).unwrap_or_default();
+        if outs.is_empty() { tr.push(format!("B{} exit", bi)); return tr; }
+        let mut en = vec![];
+        for e in &outs {
+            match e.condition() {
+                None => en.push(e.tail()),
+                Some(c) => match ev(c, &st) {
+                    Ok(v) if v.bits() == 1 => { if v.is_one() { en.push(e.tail()) } }
+                    Ok(_) => { tr.push(format!("B{} stuck(guard sort)", bi)); return tr; }
+                    Err(x) => { tr.push(format!("B{} stuck(guard {})", bi, x)); return tr; }
+                },
+            }
+        }
+        if en.len() != 1 { tr.push(format!("B{} stuck({} guards enabled)", bi, en.len())); return tr; }
+        let t = en[0];
+        tr.push(format!("{}->{}", bi, t));
+        if let Ok(tb) = g.block(t) {
+            if let Err(e) = phis(tb, Some(bi), &mut st) { tr.push(format!("stuck({})", e)); return tr; }
+        }
+        bi = t;
+    }
+}
+/// "stuck(undefined x.3:8)" and "stuck(undefined x:8)" are the same event
+fn strip(t: &str) -> String {
+    match t.find("stuck(") { Some(i) => t[..i + 5].to_string(), None => t.to_string() }
+}
+fn first_divergence(a: &[String], b: &[String]) -> Option<usize> {
+    let n = a.len().max(b.len());
+    (0..n).find(|k| a.get(*k).map(|x| strip(x)) != b.get(*k).map(|x| strip(x)))
+}
+
 fn render(f: &Function) -> String {
     let mut s = String::new();
     let g = f.control_flow_graph();
@@ -219,7 +345,7 @@ fn gen_case(seed: u64, idx: u64) -> Case {
     let shape = if guard_only && r.chance(1, 2) { 0 } else { r.below(12) };
     let p = pools(r, guard_only, intrinsics);
     let (sk, shape_name) = skeleton(r, shape);
-    let f = build(r, &p, &sk, 0x400000 + 0x100 * (idx % 7));
+    let f = build(r, &p, &sk, 0x100 * (1 + idx % 7));
     let obs = observe(|| falcon::transformation::ssa_transformation(&f));
 
     let mut it = Interner::new();
@@ -238,9 +364,11 @@ fn gen_case(seed: u64, idx: u64) -> Case {
     let n_init = 3;
     let mut inits = vec![];
     let mut init_descr = vec![];
+    let mut rstates: Vec<St> = vec![];
     for k in 0..n_init {
         let mut env = vec![];
         let mut d = vec![];
+        let mut rst = St { env: BTreeMap::new(), mem: BTreeMap::new(), big: false };
         for s in &p.all {
             if r.chance(1, 12) {
                 continue;
@@ -248,16 +376,27 @@ fn gen_case(seed: u64, idx: u64) -> Case {
             let v: u64 = match (k + r.below(3)) % 4 { 0 => 0, 1 => r.below(4), 2 => r.below(8), _ => r.next() };
             let v = if s.1 >= 64 { v } else { v & ((1u64 << s.1) - 1) };
             env.push(format!("(({}, None), mkc {} {})", n_lit(it.id(&s.0)), s.1, v));
+            rst.env.insert((s.0.clone(), None), il::Constant::new(v, s.1));
             d.push(format!("{}={}", s.0, v));
         }
         let big = r.chance(1, 2);
-        let mut bytes: Vec<String> = vec![];
-        for a in 0..40u64 {
-            if !r.chance(1, 10) {
-                bytes.push(format!("({}, {})", 0x1000 + a, r.below(256)));
-            }
+        // 24..40 defined bytes from 0x1000, sent as ONE numeral (little-endian digits base 256)
+        let nbytes = r.range(24, 40);
+        let mut hexs = String::new();
+        let mut bytes = vec![];
+        for _ in 0..nbytes {
+            bytes.push(r.below(256) as u8);
         }
-        inits.push(format!("(mkst {} (mkbmem {} {}))", coq_list(env), coq_bool(big), coq_list(bytes)));
+        // the numeral's lowest digit is the byte at the lowest address
+        for (k, b) in bytes.iter().enumerate() {
+            rst.mem.insert(0x1000 + k as u64, *b);
+        }
+        for b in bytes.iter().rev() {
+            write!(hexs, "{:02x}", b).unwrap();
+        }
+        rst.big = big;
+        rstates.push(rst);
+        inits.push(format!("(mkst {} (init_mem {} 4096 {} 0x{}))", coq_list(env), coq_bool(big), nbytes, hexs));
         init_descr.push(d.join(","));
     }
     let fuel = 40;
@@ -288,7 +427,20 @@ fn gen_case(seed: u64, idx: u64) -> Case {
         Obs::Err(k) => format!("Err {}", k),
         Obs::Panic => "PANIC".into(),
     };
-    let descr = format!("f: {} ==> ssa: {} || inits: {}", render(&f), out_descr, init_descr.join(" / "));
+    let mut div = String::new();
+    if let Obs::Ok(g) = &obs {
+        for (k, st) in rstates.iter().enumerate() {
+            let (ta, tb) = (run(&f, st, fuel), run(g, st, fuel));
+            if let Some(i) = first_divergence(&ta, &tb) {
+                let lo = i.saturating_sub(2);
+                div = format!(" || DIVERGES from init #{} ({}) at event {}: original ..{} | ssa ..{}", k, init_descr[k], i,
+                              ta[lo..ta.len().min(i + 2)].join(", "), tb[lo..tb.len().min(i + 2)].join(", "));
+                tags.push("interp:diverges".into());
+                break;
+            }
+        }
+    }
+    let descr = format!("f: {} ==> ssa: {} || inits: {}{}", render(&f), out_descr, init_descr.join(" / "), div);
     Case { key: format!("{:x}", hash(&coq)), coq, descr, tags, nontrivial: joins > 0 }
 }
 
